@@ -97,6 +97,16 @@ def r1_transducer_template(ctx):
             ctx.ob("C07.R1", f"{CORE}::{name}::completion arity", CORE, inner.line, False, "no completion (1-argument) arity")
         else:
             body = comp[1]
+            # the completion step may live in a private helper the arity hands `rf` to (shared by several
+            # transducers): `([result] (helper rf result buf))` is judged by the helper's own body
+            if len(body) == 1 and isinstance(body[0], L.List) and isinstance(body[0].items[0], L.Sym) and any(L.is_sym(a, "rf") for a in body[0].items[1:]):
+                hd = defs.get(body[0].items[0].val)
+                if hd is not None and L.head(hd) in ("defn-", "defn"):
+                    har = L.fn_arities(hd)
+                    if len(har) == 1 and len(har[0][0].items) == len(body[0].items) - 1:
+                        pos = next(i for i, a in enumerate(body[0].items[1:]) if L.is_sym(a, "rf"))
+                        if L.is_sym(har[0][0].items[pos], "rf"):  # the parameter keeps the name the census of rf calls looks for
+                            body = har[0][1]
             last = body[-1]
             tail = last
             while L.head(tail) in ("let", "let*", "do"):
